@@ -177,6 +177,27 @@ def run(run):
             if want is not None and rs[-1] != want:
                 run.violation(f"result of a call differs between a fresh thread and {k} history", q[:600], f"fresh: {want[:200]} / after history: {rs[-1][:200]}")
             run.nontrivial.add((k, calls[-1]))
+    # (2b) process-wide state: a "fresh thread" of this process is not fresh for state shared by all threads.  Where a history
+    # line disagrees with the pure model, every call of it is repeated alone in a process of its own: a call whose answer
+    # there differs from its answer inside the history depends on history
+    exe0 = core.harness(run, "release")
+    checked = 0
+    for d in list(run.corr_disagreements):
+        q = d["request"]
+        if not q.startswith("hist ") or checked >= 25:
+            continue
+        checked += 1
+        rs, _bits = split_hist(d["impl"])
+        if rs is None:
+            continue
+        calls = q[5:].split(";")
+        for c, r in list(zip(calls, rs))[-6:]:
+            alone = core.run_stream(exe0, ["hist " + c], timeout=120)
+            ra, _ = split_hist(alone[0]) if alone else (None, None)
+            if ra and ra[-1] != r:
+                run.violation("result of a call differs between a process of its own and this history (state shared by all threads of the process)",
+                              q[:600], f"alone: {ra[-1][:200]} / in the history: {r[:200]}", {"call": c})
+                break
     # (3) concurrency: the same API calls spread over N threads with barriers must equal the fresh-thread results
     exe = core.harness(run, "release")
     conc = [c.replace(",", " ") for c in api] * (2 if quick else 4)
@@ -195,7 +216,7 @@ def run(run):
             run.violation("concurrent run lost responses", f"threads {nthreads}", f"{len(out)} of {len(conc)}")
     run.rule = ("thread histories executed in fresh threads: random projection-call histories and fill-all-270-slots histories in random order followed by warm replays "
                 "(results and slot-fill bitmap compared with the Lean memo state machine), public API calls fresh vs after random prefixes vs after a fill-all prefix vs directly after RELATED calls (same call with one argument component changed: other face / quintant / digit / level / option), "
-                "and the same calls spread over 8 (quick) / 2, 8, 16 threads with barriers; non-trivial = distinct histories / (kind, call) pairs compared")
+                "histories that disagree with the pure model re-run call by call in processes of their own (process-wide state), and the same calls spread over 8 (quick) / 2, 8, 16 threads with barriers; non-trivial = distinct histories / (kind, call) pairs compared")
     run.samples = [{"request": reqs[i][:300], "impl": impl[i][:300]} for i in rng.sample(range(1, len(reqs)), 5)]
     run.extra["spherical_slots_filled_cold"] = len(slots_cold)
     run.extra["spherical_slots_rehit_warm"] = len(slots_warm)
